@@ -161,7 +161,7 @@ var pools = map[string][]interface{}{
 	"float32": {float32(0), math.Float32frombits(0x80000000), float32(1), float32(-1), float32(math.Inf(1)), float32(math.Inf(-1)), math.Float32frombits(0x7fc00000), math.Float32frombits(0x7fc12345), math.Float32frombits(0xffa00001), math.Float32frombits(1), float32(math.MaxFloat32), float32(-math.MaxFloat32), float32(1.17549435e-38), float32(3.14159), float32(-2.5), float32(1e10)},
 	"float64": {float64(0), math.Float64frombits(0x8000000000000000), float64(1), float64(-1), math.Inf(1), math.Inf(-1), math.Float64frombits(0x7ff8000000000000), math.Float64frombits(0x7ff8000000abcdef), math.Float64frombits(0xfff4000000000001), math.Float64frombits(1), math.MaxFloat64, -math.MaxFloat64, 2.2250738585072014e-308, 3.14159, -2.5, 1e100},
 	"bool":    {false, true},
-	"string":  {"", "a", "b", "__#NIL#__", "\xff", "\xff\xfe", long300, "a\x00b", "zz", "Z", "ä", " ", "__#NIL#__x", "\x00", "abc", "ab", "__#NIL#_", "~", "\xc3\x28", "A",
+	"string": {"", "a", "b", "__#NIL#__", "\xff", "\xff\xfe", long300, "a\x00b", "zz", "Z", "ä", " ", "__#NIL#__x", "\x00", "abc", "ab", "__#NIL#_", "~", "\xc3\x28", "A",
 		// long strings that share long prefixes and have 0xff bytes around the lengths at which a writer might truncate statistics,
 		// and strings that look like the tail of a file (length + magic)
 		k63, k63 + "\xff", k63 + "\xfftail", k63 + "k", k63[:15] + "\xff\xfft", k63[:31] + "\xff\xfft", k63 + k63 + "k\xff\xfft",
@@ -605,8 +605,8 @@ type source struct {
 	chunk     int // >0: every Read returns at most chunk bytes
 	shortAt   int // >0: only Read call number shortAt is short ...
 	shortHow  string
-	eofData   bool        // return n>0 together with io.EOF when a Read reaches the end
-	randShort func() int  // when set: returns the max bytes for this read (>=1)
+	eofData   bool       // return n>0 together with io.EOF when a Read reaches the end
+	randShort func() int // when set: returns the max bytes for this read (>=1)
 	// faults
 	faultAt   int    // 1-based index over all Read+Seek calls
 	faultKind string // zero | half | eof | ueof
@@ -738,9 +738,9 @@ type jobCase struct {
 	Foreign   interface{} `json:"foreign,omitempty"` // foreign file spec (C04/C18), see foreign.go
 	Expect    interface{} `json:"expect,omitempty"`  // logical rows of a foreign file
 	KeepFile  string      `json:"keepfile,omitempty"`
-	Light     bool        `json:"light,omitempty"` // omit page level/value detail from events
-	Bulk      *bulkSpec   `json:"bulk,omitempty"`  // a workload too large for one trace event per record: compared in Go, judged as one event
-	Sched     interface{} `json:"sched,omitempty"` // instances + schedule (C13), see sched.go
+	Light     bool        `json:"light,omitempty"`    // omit page level/value detail from events
+	Bulk      *bulkSpec   `json:"bulk,omitempty"`     // a workload too large for one trace event per record: compared in Go, judged as one event
+	Sched     interface{} `json:"sched,omitempty"`    // instances + schedule (C13), see sched.go
 	ReadFile  string      `json:"readfile,omitempty"` // read this file instead of writing one (C15); Expect holds its logical rows
 }
 
